@@ -63,6 +63,11 @@ func (w Resolver) Resolve(id did.DID, _ *resolver.ResolveMetadata) (*did.Documen
 		baseURL.Path = "/.well-known"
 	}
 	baseURL.Path = baseURL.Path + "/did.json"
+	if baseURL.RawPath != "" {
+		// The path contains percent-encoded characters that must stay encoded (e.g. %2F, which is part of a path segment, not a separator).
+		// RawPath is only used if it is a valid encoding of Path, so it has to be extended as well.
+		baseURL.RawPath = baseURL.RawPath + "/did.json"
+	}
 	targetURL := baseURL.String()
 
 	// TODO: Support DNS over HTTPS (DOH), https://www.rfc-editor.org/rfc/rfc8484
